@@ -234,6 +234,8 @@ def gen_net(rng, n_in=None, n_gates=None, n_ff=None, n_out=None, style=None, fea
         for i in range(n_out):
             pool = gate_sigs[-max(4, n_gates // 3):] if gate_sigs else sigs
             sig = rng.choice(pool if rng.random() < 0.8 else (gate_sigs or sigs))
+            if rng.random() < 0.06:
+                sig = rng.choice(sigs)          # any signal, also an input or a state output wired straight to a port
             net['outputs'].append({'name': f'o{i}', 'sig': sig})
     ports = net['inputs'] + [o['name'] for o in net['outputs']]
     if rng.random() < 0.5:
